@@ -227,6 +227,29 @@ Proof.
   - congruence.
 Qed.
 
+(* ---------- roots: entries whose parent id is empty ---------- *)
+
+Lemma has_lib_nz d : ri (libref d) <> 0 -> has_lib d = true.
+Proof.
+  intros H. unfold has_lib, ref_eqb, ref_empty. cbn [ri rn].
+  destruct (N.eqb_spec (ri (libref d)) 0); [contradiction | reflexivity].
+Qed.
+
+(* ReversibleSegment from a stored root: nothing (the root is the LIB block itself, lies in the guard zone,
+   or its empty parent link is not the LIB) *)
+Lemma rs_root d first x cn e : wf_store (store d) -> ri (libref d) <> 0 ->
+  find x (store d) = Some e -> bparent (eb e) = 0 ->
+  exists r, rs_loop (fuel_of d) d first x cn [] = Some ([], r).
+Proof.
+  intros Hwf Hl Hf Hp. unfold fuel_of. cbn [rs_loop].
+  destruct ((first <? cn) && (cn <? rn (libref d))); [eauto|].
+  destruct (x =? ri (libref d)); [eauto|].
+  rewrite Hf, Hp.
+  destruct ((first <? num_or0 d 0) && (num_or0 d 0 <? rn (libref d))); [eauto|].
+  destruct (N.eqb_spec 0 (ri (libref d))) as [E|_]; [exfalso; apply Hl; symmetry; exact E|].
+  rewrite (find_zero_wf _ Hwf), (has_lib_nz d Hl). eauto.
+Qed.
+
 (* ---------- ChainSwitchSegments ---------- *)
 
 Lemma link_of_stored d id e : find id (store d) = Some e -> link_of d id = bparent (eb e).
